@@ -245,6 +245,10 @@ def rule_body_text(ctx, file, s):
     s = sub("R-dynfn-call", r"\bvalidator\((\w+), ", r"validator.call(\1, ", s)
     # R-mapiter: `for P in &self.F {` over a HashMap field -> `for P in __it: self.F.iter() {` (definition of IntoIterator for &HashMap; names the ghost iterator)
     s = sub("R-mapiter", r"for (\([^)]*\)) in &self\.(\w+) \{", r"for \1 in __it: self.\2.iter() {", s)
+    s = sub("R-mapiter", r"for (\([^)]*\)) in self\.(\w+)\.iter\(\) \{", r"for \1 in __it: self.\2.iter() {", s)
+    # R-boxdyn: `claims.insert(k, Box::new(v))` (Box<T> coerced to Box<dyn erased_serde::Serialize>) -> shim performing exactly Box::new + coercion
+    s = sub("R-boxdyn", r"(self\.claims\.insert\([^,]+, )Box::new\((\w+)\)\)", r"\1erased_serde::box_serialize(\2))", s)
+    s = sub("R-boxdyn", r"(self\.claim_validators\.insert\([^,]+, )Box::new\((\w+)\)\)", r"\1box_validator(\2))", s)
     # R-mapindex: `&self.F[k]` on a HashMap field -> `self.F.get(k).unwrap()` (both panic exactly when the key is absent)
     s = sub("R-mapindex", r"&self\.(claim_validators|claims)\[(\w+)\]", r"self.\1.get(\2).unwrap()", s)
     # R-vecfrom: `Vec::from(x)` for a slice x is `x.to_vec()` (body of `impl From<&[T]> for Vec<T>`); vstd specifies to_vec only
